@@ -258,6 +258,7 @@ type c20FakeTpt struct {
 	canDial bool
 	fail    bool
 	dials   int
+	during  func() // runs inside Dial, before it returns
 }
 
 type c20FakeConn struct {
@@ -276,6 +277,9 @@ func (f *c20FakeTpt) Proxy() bool               { return false }
 func (f *c20FakeTpt) Close() error              { return nil }
 func (f *c20FakeTpt) Dial(_ context.Context, a ma.Multiaddr, p peer.ID) (transport.CapableConn, error) {
 	f.dials++
+	if f.during != nil {
+		f.during()
+	}
 	if f.fail {
 		return nil, errors.New("scripted dial failure")
 	}
@@ -285,9 +289,12 @@ func (f *c20FakeTpt) Dial(_ context.Context, a ma.Multiaddr, p peer.ID) (transpo
 // c20DialAddr runs one Swarm.dialAddr on a swarm whose only transport is the
 // scripted one.  scenario 0: the dial succeeds, 1: the dial fails,
 // 2: context already cancelled, 3: no transport claims the address,
-// 4: dial to self.  Returns whether the transport's Dial was called.
+// 4: dial to self, 5: the dial succeeds although a concurrent dial to the peer
+// won meanwhile (the context is cancelled with errConcurrentDialSuccessful while
+// the transport is dialing), 6: the same but the dial fails.
+// Returns whether the transport's Dial was called.
 func c20DialAddr(sw *Swarm, d *blackHoleDetector, a ma.Multiaddr, scenario int) bool {
-	f := &c20FakeTpt{canDial: scenario != 3, fail: scenario == 1}
+	f := &c20FakeTpt{canDial: scenario != 3, fail: scenario == 1 || scenario == 6}
 	sw.transports.Lock()
 	saved := sw.transports.m
 	sw.transports.m = map[int]transport.Transport{ma.P_TCP: f}
@@ -298,10 +305,14 @@ func c20DialAddr(sw *Swarm, d *blackHoleDetector, a ma.Multiaddr, scenario int) 
 		sw.transports.Unlock()
 	}()
 	sw.bhd = d
-	ctx, cancel := context.WithCancel(context.Background())
+	ctx, cancelCause := context.WithCancelCause(context.Background())
+	cancel := func() { cancelCause(context.Canceled) }
 	defer cancel()
 	if scenario == 2 {
 		cancel()
+	}
+	if scenario == 5 || scenario == 6 {
+		f.during = func() { cancelCause(errConcurrentDialSuccessful) }
 	}
 	p := peer.ID("somepeer")
 	if scenario == 4 {
@@ -333,7 +344,7 @@ func c20Detector(out *verifh.Out, r *verifh.Rand, length int, sw *Swarm) {
 	line := []int64{1, un, um, vn, vm}
 	removedAny, usedRO, roAfterBlocked := false, false, false
 	for i := 0; i < length; i++ {
-		k := r.Intn(14)
+		k := r.Intn(16)
 		if k >= 12 && sw == nil {
 			k = 8
 		}
@@ -392,16 +403,30 @@ func c20Detector(out *verifh.Out, r *verifh.Rand, length int, sw *Swarm) {
 			d.RecordResult(c20Addr(t, 7), succ)
 			line = append(line, 11, int64(ro), t.cls, c20b(succ))
 			out.Cover("detector.op.record")
+		case k >= 14: // Swarm.CanDial: one request for one address
+			t := c20Tmpls[r.Intn(len(c20Tmpls))]
+			for !c20SwarmOK(t) {
+				t = c20Tmpls[r.Intn(len(c20Tmpls))]
+			}
+			sw.bhd = d
+			ok := sw.CanDial("somepeer", c20Addr(t, 1000))
+			line = append(line, 16, int64(ro), t.cls, c20b(ok))
+			out.Cover("detector.op.candial")
 		case k >= 12: // Swarm.dialAddr with a scripted transport
 			t := c20Tmpls[r.Intn(len(c20Tmpls))]
-			scenario := r.Intn(5)
+			scenario := r.Intn(7)
 			dialed := c20DialAddr(sw, d, c20Addr(t, 9), scenario)
-			if dialed != (scenario <= 1) {
+			if dialed != (scenario <= 1 || scenario >= 5) {
 				out.Comment(fmt.Sprintf("dialAddr scenario %d: transport dialed = %v", scenario, dialed))
 				out.Cover("detector.dialaddr_scenario_unexpected")
 			}
 			if dialed {
-				line = append(line, 14, int64(ro), t.cls, c20b(scenario == 0))
+				sv := c20b(scenario == 0 || scenario == 5)
+				if scenario >= 5 {
+					sv += 2
+					out.Cover("detector.op.dialaddr_while_concurrent_dial_won")
+				}
+				line = append(line, 14, int64(ro), t.cls, sv)
 				out.Cover("detector.op.dialaddr_dialed")
 			} else {
 				line = append(line, 15, int64(ro), t.cls)
@@ -598,12 +623,14 @@ func TestVerifC20Replay(t *testing.T) {
 			line = append(line, 11, in[i+1], in[i+2], in[i+3])
 			i += 4 + 8
 		case 14:
-			sc := 1
-			if in[i+3] != 0 {
-				sc = 0
-			}
+			sc := map[int64]int{0: 1, 1: 0, 2: 6, 3: 5}[in[i+3]]
 			c20DialAddr(sw, dets[in[i+1]], c20Addr(tmplOf(in[i+2], false), 9), sc)
 			line = append(line, 14, in[i+1], in[i+2], in[i+3])
+			i += 4 + 8
+		case 16:
+			sw.bhd = dets[in[i+1]]
+			ok := sw.CanDial("somepeer", c20Addr(tmplOf(in[i+2], true), 1000))
+			line = append(line, 16, in[i+1], in[i+2], c20b(ok))
 			i += 4 + 8
 		case 15:
 			// the recorded case does not say which early return it was: run all three
